@@ -103,13 +103,121 @@ def _lt(x):
     return None if x is None else torch.tensor(x, dtype=torch.long)
 
 
-def impl_slice(case):
+# ----------------------------------------------------------------------------------------------------------
+# robustness variants: impl_slice / impl_tokens (case, alt) make the same logical call through another entry point
+# (module wrapper, scripted function / module, keywords, defaults omitted), with another memory layout / integer
+# dtype, a second time on the same tensors, with one tensor object for two parameters, or element by element.
+# The property makes the outcome a function of the logical input: every variant must reproduce the canonical
+# outcome and leave the argument tensors untouched.
+# ----------------------------------------------------------------------------------------------------------
+SLICE_ALTS = ["module", "script_fn", "script_mod", "kw", "defaults", "in_view", "idx_views", "twice", "alias", "lens_explicit",
+              "alone", "dtype"]
+TOKEN_ALTS = ["module", "script_fn", "script_mod", "kw", "defaults", "refs_view", "idx_views", "twice", "lens_explicit", "alone", "alias"]
+_SCRIPTED = {}
+MODIFIED = "an argument tensor was modified in place by the call"
+
+
+def _scripted(key, make, limit=None):
+    if key not in _SCRIPTED:
+        if limit is not None and sum(1 for k in _SCRIPTED if isinstance(k, tuple) and k[0] == key[0]) >= limit:
+            return None
+        _SCRIPTED[key] = torch.jit.script(make())
+    return _SCRIPTED[key]
+
+
+def _relayout(x, how):
+    if x is None or x.dim() == 0:
+        return x
+    if how == "tr" and x.dim() >= 2:
+        return x.transpose(0, -1).contiguous().transpose(0, -1)
+    if how == "tr01" and x.dim() >= 2:
+        return x.transpose(0, 1).contiguous().transpose(0, 1)
+    buf = torch.full(tuple(x.shape[:-1]) + (2 * x.shape[-1] + 1,), 7777, dtype=x.dtype)
+    buf[..., 1::2] = x
+    return buf[..., 1::2]
+
+
+def _unchanged(args, snap):
+    return all(t is None or (t.shape == s_.shape and t.dtype == s_.dtype and bool((t == s_).all())) for t, s_ in zip(args, snap))
+
+
+def same_outcome(base, other):
+    if base[0] == "exc" and other[0] == "exc":
+        return True      # the model (and the property) only say that the call raises
+    return base == other
+
+
+def _strip_defaults(args, defaults):
+    args = list(args)
+    while args and defaults and (args[-1] is defaults[-1] or (not torch.is_tensor(args[-1]) and args[-1] == defaults[-1]
+                                                               and type(args[-1]) is type(defaults[-1]))):
+        args.pop()
+        defaults = defaults[:-1]
+    return args
+
+
+def impl_slice(case, alt=None):
     F = _api()
+    import pydrobert.torch.modules as PM
+    pol, wt, vo, lobe = case["policy"], case["wt"], case["vo"], case["lobe"]
+    N = case["N"] if pol == "fixed" else len(case["rows"])
     try:
+        if alt == "alone":
+            out = []
+            for n in range(N):
+                sub = dict(case, in_lens=None if case["in_lens"] is None else [case["in_lens"][n]])
+                if pol == "fixed":
+                    sub["N"] = 1
+                else:
+                    sub["rows"] = [case["rows"][n]]
+                if case.get("other_lens") is not None:
+                    sub["other_lens"] = [case["other_lens"][n]]
+                r = impl_slice(sub)
+                if r[0] != "ok":
+                    return r
+                out += [[a, b_, n] for a, b_, _ in r[1]]
+            return ["ok", out]
+        inp, il, ol = _slice_input(case), _lt(case["in_lens"]), _lt(case.get("other_lens"))
+        if alt == "in_view":
+            inp = _relayout(inp, "tr01" if pol == "ref" else "tr")
+        elif alt == "idx_views":
+            il, ol = _relayout(il, "step"), _relayout(ol, "step")
+        elif alt == "dtype":
+            if pol == "ali" and all(abs(v) < 2 ** 31 for r in case["rows"] for v in r):
+                inp = inp.int()
+            elif pol == "fixed":
+                inp = torch.zeros((N, case["T"]), dtype=torch.long)     # only the first two sizes matter
+        elif alt == "alias" and il is not None and ol is not None and case["in_lens"] == case["other_lens"]:
+            ol = il
+        elif alt == "lens_explicit" and il is None and N > 0 and case["T"] > 0:
+            il = torch.full((N,), case["T"], dtype=torch.long)
+        how = alt if alt in ("module", "script_fn", "script_mod", "kw", "defaults") else "functional"
+        smod = None
+        if how == "script_mod":
+            smod = _scripted(("SliceSpectData", pol, wt, vo, lobe), lambda: PM.SliceSpectData(pol, wt, vo, lobe), limit=6)
+            if smod is None:
+                how = "script_fn"
+
+        def call():
+            if how == "module":
+                return PM.SliceSpectData(pol, wt, vo, lobe)(inp, il, ol)
+            if how == "script_mod":
+                return smod(inp, il, ol)
+            if how == "script_fn":
+                return _scripted("slice_spect_data", lambda: F.slice_spect_data)(inp, il, ol, pol, wt, vo, lobe)
+            if how == "kw":
+                return F.slice_spect_data(input=inp, in_lens=il, other_lens=ol, policy=pol, window_type=wt, valid_only=vo, lobe_size=lobe)
+            if how == "defaults":
+                return F.slice_spect_data(*_strip_defaults([inp, il, ol, pol, wt, vo, lobe], [None, None, None, "fixed", "symmetric", True, 0]))
+            return F.slice_spect_data(inp, il, ol, pol, wt, vo, lobe)
+        args = [inp, il, ol]
+        snap = [None if t is None else t.clone() for t in args]
         with warnings.catch_warnings():
             warnings.simplefilter("ignore")
-            sl, src = F.slice_spect_data(_slice_input(case), _lt(case["in_lens"]), _lt(case.get("other_lens")),
-                                         case["policy"], case["wt"], case["vo"], case["lobe"])
+            if alt == "twice":
+                call()
+            sl, src = call()
+        assert _unchanged(args, snap), MODIFIED
         assert sl.dtype == torch.long and src.dtype == torch.long
         assert sl.ndim == 2 and sl.size(1) == 2 and src.shape == (sl.size(0),), (sl.shape, src.shape)
         return ["ok", [[int(a), int(b), int(s)] for (a, b), s in zip(sl.tolist(), src.tolist())]]
@@ -119,16 +227,58 @@ def impl_slice(case):
         return ["exc", exc_kind(e)]
 
 
-def impl_tokens(case):
+def impl_tokens(case, alt=None):
     F = _api()
+    import pydrobert.torch.modules as PM
     N = len(case["refs"])
     R = case["R"]
+    partial, retain = case["partial"], case["retain"]
     try:
+        if alt == "alone":
+            rows, lens = [], []
+            for n in range(N):
+                sub = dict(case, refs=[case["refs"][n]], slices=[case["slices"][n]],
+                           ref_lens=None if case["ref_lens"] is None else [case["ref_lens"][n]])
+                r = impl_tokens(sub)
+                if r[0] != "ok":
+                    return r
+                rows += r[1]
+                lens += r[2]
+            return ["ok", rows, lens]
         refs = torch.tensor(case["refs"], dtype=torch.long).view(N, R, 3)
         slices = torch.tensor(case["slices"], dtype=torch.long).view(N, 2)
+        rl = _lt(case["ref_lens"])
+        if alt == "refs_view":
+            refs = _relayout(refs, "tr")
+        elif alt == "idx_views":
+            slices, rl = slices.t().contiguous().t(), _relayout(rl, "step")
+        elif alt == "lens_explicit" and rl is None:
+            rl = torch.full((N,), R, dtype=torch.long)
+        elif alt == "alias" and rl is not None and [s_[1] for s_ in case["slices"]] == case["ref_lens"]:
+            rl = slices[:, 1]
+        how = alt if alt in ("module", "script_fn", "script_mod", "kw", "defaults") else "functional"
+
+        def call():
+            if how == "module":
+                return PM.ChunkTokenSequencesBySlices(partial, retain)(refs, slices, rl)
+            if how == "script_mod":
+                return _scripted(("ChunkTokenSequencesBySlices", partial, retain),
+                                 lambda: PM.ChunkTokenSequencesBySlices(partial, retain))(refs, slices, rl)
+            if how == "script_fn":
+                return _scripted("chunk_token_sequences_by_slices", lambda: F.chunk_token_sequences_by_slices)(refs, slices, rl, partial, retain)
+            if how == "kw":
+                return F.chunk_token_sequences_by_slices(refs=refs, slices=slices, ref_lens=rl, partial=partial, retain=retain)
+            if how == "defaults":
+                return F.chunk_token_sequences_by_slices(*_strip_defaults([refs, slices, rl, partial, retain], [None, None, None, False, False]))
+            return F.chunk_token_sequences_by_slices(refs, slices, rl, partial, retain)
+        args = [refs, slices, rl]
+        snap = [None if t is None else t.clone() for t in args]
         with warnings.catch_warnings():
             warnings.simplefilter("ignore")
-            ch, ln = F.chunk_token_sequences_by_slices(refs, slices, _lt(case["ref_lens"]), case["partial"], case["retain"])
+            if alt == "twice":
+                call()
+            ch, ln = call()
+        assert _unchanged(args, snap), MODIFIED
         assert ln.shape == (N,) and ch.ndim == 3 and ch.size(0) == N and ch.size(2) == 3, (ch.shape, ln.shape)
         lens = [int(x) for x in ln.tolist()]
         assert all(0 <= x <= ch.size(1) for x in lens), lens
@@ -139,33 +289,66 @@ def impl_tokens(case):
         return ["exc", exc_kind(e)]
 
 
+def run_alts(case, impl):
+    """-> [(alt, outcome)] for the variants of case['alts'] whose outcome differs from the canonical one"""
+    bad = []
+    if case["kind"] not in ("slice", "tokens"):
+        return bad
+    fn = impl_slice if case["kind"] == "slice" else impl_tokens
+    for a in case.get("alts") or []:
+        if a == "alone" and impl[0] != "ok":
+            continue
+        o = fn(case, a)
+        if not same_outcome(impl, o):
+            bad.append((a, o))
+    return bad
+
+
 def _feat_tensor(vals, F):
     return torch.tensor([[float(v + 1000 * f) for f in range(F)] for v in vals], dtype=torch.float).view(len(vals), F)
 
 
-def _write_dir(root, utts):
+def _subdirs(case):
+    return case.get("subdirs") or {"feat": "feat", "ali": "ali", "ref": "ref"}
+
+
+def _write_dir(root, utts, case=None):
+    case = case or {}
+    sd, pre = _subdirs(case), case.get("prefix", "")
     for sub in ("feat", "ali", "ref"):
         if sub == "feat" or any(u.get(sub) is not None for u in utts):
-            os.makedirs(os.path.join(root, sub), exist_ok=True)
+            os.makedirs(os.path.join(root, sd[sub]), exist_ok=True)
     for u in utts:
-        name = u["id"] + ".pt"
-        torch.save(_feat_tensor(u["feat"], u["F"]), os.path.join(root, "feat", name))
+        name = pre + u["id"] + ".pt"
+        torch.save(_feat_tensor(u["feat"], u["F"]), os.path.join(root, sd["feat"], name))
         if u.get("ali") is not None:
-            torch.save(torch.tensor(u["ali"], dtype=torch.long), os.path.join(root, "ali", name))
+            torch.save(torch.tensor(u["ali"], dtype=torch.long), os.path.join(root, sd["ali"], name))
         if u.get("ref") is not None:
             r = u["ref"]
             if "seg" in r:
                 t = torch.tensor(r["seg"], dtype=torch.long).view(len(r["seg"]), 3)
             else:
                 t = torch.tensor(r["tok"], dtype=torch.long)
-            torch.save(t, os.path.join(root, "ref", name))
+            torch.save(t, os.path.join(root, sd["ref"], name))
 
 
 def _dir_args(case, src, dst):
-    args = [src, dst, "--num-workers", "0", "--policy", case["policy"], "--window-type", case["wt"],
-            "--lobe-size", str(case["lobe"]), "--format-utt", case.get("fmt", FMT), "--quiet"]
+    args = [src, dst, "--num-workers", "0", "--format-utt", case.get("fmt", FMT), "--quiet"]
+    omit = case.get("omit_defaults", False)      # options at their documented default are left out
+    if not (omit and case["policy"] == "fixed"):
+        args += ["--policy", case["policy"]]
+    if not (omit and case["wt"] == "symmetric"):
+        args += ["--window-type", case["wt"]]
+    if not (omit and case["lobe"] == 0):
+        args += ["--lobe-size", str(case["lobe"])]
     if case["pad"] is not None:
-        args += ["--pad-mode", case["pad"], "--pad-constant", str(case["padc"])]
+        args += ["--pad-mode", case["pad"]]
+        if not (omit and case["padc"] == 0):
+            args += ["--pad-constant", str(case["padc"])]
+    if case.get("prefix"):
+        args += ["--file-prefix", case["prefix"]]
+    if case.get("subdirs"):
+        args += ["--feat-subdir", case["subdirs"]["feat"], "--ali-subdir", case["subdirs"]["ali"], "--ref-subdir", case["subdirs"]["ref"]]
     if case["partial"]:
         args.append("--partial-tokens")
     if case["retain"]:
@@ -178,15 +361,17 @@ def _read_out(dst, case, utts):
     T = {u["id"]: len(u["feat"]) for u in utts}
     F = {u["id"]: u["F"] for u in utts}
     res = {u["id"]: {} for u in utts}
-    fdir = os.path.join(dst, "feat")
+    sd, pre = _subdirs(case), case.get("prefix", "")
+    fdir = os.path.join(dst, sd["feat"])
     names = sorted(os.listdir(fdir))
     for sub in ("ali", "ref"):
-        d = os.path.join(dst, sub)
+        d = os.path.join(dst, sd[sub])
         if os.path.isdir(d):
             assert sorted(os.listdir(d)) == names, f"{sub} files differ from feat files"
     for name in names:
-        assert name.endswith(".pt")
-        uid, idx, start, end = name[:-3].split(".")
+        assert name.endswith(".pt") and name.startswith(pre), name
+        uid, idx, start, end = name[len(pre):-3].rsplit(".", 3)
+        assert uid in res, f"chunk of an unknown utterance: {name}"
         idx, start, end = int(idx), int(start), int(end)
         feat = torch.load(os.path.join(fdir, name))
         assert feat.ndim == 2 and feat.size(1) == F[uid] and feat.dtype == torch.float, feat.shape
@@ -196,12 +381,12 @@ def _read_out(dst, case, utts):
                 inside = 0 <= start + i < T[uid]
                 assert (inside and int(b) == a + 1000 * f) or (not inside), ("feature columns disagree", name)
         ch = {"win": [start, end], "feat": col0, "ali": None, "ref": None}
-        p = os.path.join(dst, "ali", name)
+        p = os.path.join(dst, sd["ali"], name)
         if os.path.exists(p):
             a = torch.load(p)
             assert a.ndim == 1 and a.dtype == torch.long
             ch["ali"] = [int(x) for x in a.tolist()]
-        p = os.path.join(dst, "ref", name)
+        p = os.path.join(dst, sd["ref"], name)
         if os.path.exists(p):
             r = torch.load(p)
             assert r.dtype == torch.long
@@ -231,7 +416,7 @@ def impl_dir(case, workdir):
     shutil.rmtree(root, ignore_errors=True)
     src, dst = os.path.join(root, "in"), os.path.join(root, "out")
     try:
-        _write_dir(src, case["utts"])
+        _write_dir(src, case["utts"], case)
         with warnings.catch_warnings():
             warnings.simplefilter("ignore")
             try:
@@ -245,7 +430,9 @@ def impl_dir(case, workdir):
             except AssertionError as e:
                 return ["bad-shape", str(e)]
             try:
-                ds = data.SpectDataSet(dst, suppress_alis=False, tokens_only=False)
+                sd_ = _subdirs(case)
+                ds = data.SpectDataSet(dst, case.get("prefix", ""), suppress_alis=False, tokens_only=False,
+                                       feat_subdir=sd_["feat"], ali_subdir=sd_["ali"], ref_subdir=sd_["ref"])
                 data.validate_spect_data_set(ds)
                 verdict = "valid"
             except Exception as e:
